@@ -22,6 +22,7 @@ DEN = 4096
 TOL = 1e-10
 
 F17_KEY = 'C12:GroupedSite:charges=drop:heterogeneous-dims:IndexError'
+F18_KEY = 'C12:GroupedSite:charges=same:after-set_common_charges:charge_to_JW_parity-list:TypeError'
 
 
 # ---------------------------------------------------------------------------------------------------------------------
@@ -374,7 +375,7 @@ def corr_cases(rng, ctx):
             for rep in range(ctx.pick(1, 4)):
                 k += 1
                 cases.append({'sites': [spec('FermionSite', conserve=cons)] * L, 'seed': ctx.seed * 1000 + k,
-                              'pairs': [['Cd', 'C'], ['C', 'Cd'], ['C', 'C'], ['Cd', 'Cd'], ['Cd JW', 'C'], ['N', 'N']]})
+                              'pairs': [['Cd', 'C'], ['C', 'Cd'], ['C', 'C'], ['Cd', 'Cd'], ['N', 'N'], ['Cd', 'N C']]})
     for (cn, cs) in [('N', 'Sz'), ('parity', 'parity'), ('None', 'None')]:
         k += 1
         cases.append({'sites': [spec('SpinHalfFermionSite', cons_N=cn, cons_Sz=cs)] * 3, 'seed': ctx.seed * 1000 + k,
@@ -549,7 +550,7 @@ def main(ctx):
     # ------------------------------------------------------------------ GroupedSite
     gcases = grouped_cases(rng, ctx)
     gres = run_chunks(ctx, 'grouped', gcases)
-    nf17 = 0
+    nf17 = nf18 = 0
     for case, r in zip(gcases, gres):
         if r is None:
             continue
@@ -558,18 +559,26 @@ def main(ctx):
         if 'runner_error' in r:
             ctx.fail('correspondence', 'grouped runner failed: ' + r['runner_error'][-400:], {'stream': 'grouped', 'case': case})
             continue
+        if 'error' in r and case['charges'] == 'same' and r['error'] == 'ValueError' and 'different `mod` nature' in r.get('msg', ''):
+            ctx.count('grouped', tag, nontrivial=False)      # no common charge exists for these sites: documented error
+            continue
         ctx.count('grouped', tag, nontrivial='error' not in r and len(set(s[0] for s in case['sites'])) > 1)
         if 'error' in r:
             key = 'C12:GroupedSite:raises'
             if case['charges'] == 'drop' and len(set(dims)) > 1 and r['error'] == 'IndexError':
                 key = F17_KEY
                 nf17 += 1
+            if case['charges'] == 'same' and r.get('used_common') and r['error'] == 'TypeError' and "'bool' object is not iterable" in r.get('msg', '') \
+                    and 'c2JWps' in r.get('tb', ''):
+                key = F18_KEY
+                nf18 += 1
             ctx.fail('oracle', 'GroupedSite(%s, charges=%r) raised %s: %s' % ([s[0] for s in case['sites']], case['charges'], r['error'], r.get('msg', '')),
                      {'stream': 'grouped', 'case': case, 'traceback': r.get('tb', '')}, match_key=key)
         elif r['problems']:
             ctx.fail('oracle', 'GroupedSite(%s, charges=%r): %s' % ([s[0] for s in case['sites']], case['charges'], '; '.join(r['problems'][:4])),
                      {'stream': 'grouped', 'case': case}, match_key='C12:GroupedSite:operators')
     hist['grouped_drop_heterogeneous_IndexError'] = nf17
+    hist['grouped_same_after_set_common_charges_TypeError'] = nf18
 
     # ------------------------------------------------------------------ correlation_function(autoJW)
     ccases = corr_cases(rng, ctx)
